@@ -15,6 +15,7 @@ from ..pat import P, K, V, C, F, AGG, OKP, BIN, CLO, TUP, FN, ANY, ALT, match, c
 from . import c03, c07
 
 CONFIGS = ("FULL", "XEN")
+THOROUGH_CONFIGS = ("MIN",)
 TRUSTED = [
     "io::Error::kind(); the stream implementation behind the generic parameter honours the ReadVolatile/WriteVolatile contract",
     "C03 (region chunking protocol) and C04 (copy primitives)",
@@ -37,6 +38,48 @@ def unknown_stream_calls(prog):
             if STREAM.search(cn) and not c.t.get("resolved"):
                 yield b, c
 
+
+def rule_exact_loops(ctx, prog, eff, rule="R14.2.exact_loop"):
+    """default read_exact_volatile / write_all_volatile: advance the CURRENT buffer by exactly the returned count,
+    Ok(0) => pinned ErrorKind, other errors unchanged, loop while not empty"""
+    for tr, nm, meth, kind in (("io::ReadVolatile", "read_exact_volatile", "read_volatile", "UnexpectedEof"), ("io::WriteVolatile", "write_all_volatile", "write_volatile", "WriteZero")):
+        b = prog.one(in_trait=tr, name=nm)
+        cs = [c for c in b.calls() if canon(c.callee or "").endswith("::" + meth) and not c.t.get("resolved")]
+        ok = len(cs) == 1
+        d = f"{len(cs)} stream calls"
+        if ok:
+            S = deep_strip(b.call_term(cs[0].t, cs[0].pos, 0))
+            bufarg = unref(cs[0].args()[1])
+            cur_ok = bufarg[0] == 'var'
+            adv_ok = init_ok = False
+            if cur_ok:
+                for pos, t in b.var_defs(bufarg[1]):
+                    t = deep_strip(t)
+                    p = producer(t)
+                    if match(C("VolatileSlice::offset", P(2), K(0)), p, {}):
+                        init_ok = True
+                    elif match(C("VolatileSlice::offset", V("pb"), V("n")), p, {"pb": bufarg}):
+                        e = {"pb": bufarg}
+                        match(C("VolatileSlice::offset", V("pb"), V("n")), p, e)
+                        nn = e["n"]
+                        adv_ok = nn[0] == 'ok' and producer(nn) == S
+            # Ok(0) => the pinned error kind ; Err(e) => returned unchanged
+            zero_ok = pass_ok = False
+            for pos, rt in b.return_terms():
+                facts = b.facts_at(pos)
+                rd = deep_strip(rt)
+                kinds = [s2[2] for s2 in subterms(rd) if s2[0] == 'agg' and str(s2[1]).endswith("io::ErrorKind")]
+                if kinds:
+                    z = any(r[0] == 'cmp' and r[1] == 'Eq' and r[3] == ('const', 0) and unref(r[2])[0] == 'ok' and producer(unref(r[2])) == S for r in facts)
+                    zero_ok = kinds == [kind] and z
+                elif rd[0] == 'agg' and rd[2] == 'Err' and unref(rd[3][0]) == ('vfield', S, 'Err', 0):
+                    pass_ok = True
+            # loop guard: while !partial_buf.is_empty()
+            guard_ok = any(r[0] == 'bool' and r[2] is False and match(C("VolatileSlice::is_empty", V("pb")), r[1], {"pb": bufarg}) for r in b.facts_at(cs[0].pos))
+            ok = cur_ok and init_ok and adv_ok and zero_ok and pass_ok and guard_ok
+            d = (f"retried call uses the current partial_buf [{cur_ok}] (init buf.offset(0) [{init_ok}], advanced only by offset(n) with n = the call's Ok payload [{adv_ok}]); "
+                 f"Ok(0) => Err({kind}) [{zero_ok}]; other errors returned unchanged [{pass_ok}]; loop runs while !partial_buf.is_empty() [{guard_ok}]")
+        ctx.ob(rule, b.key, ok, b.where(), d)
 
 def run(ctx, progs):
     for cfg, prog in progs.items():
@@ -83,45 +126,7 @@ def run(ctx, progs):
                 detail = f"back edge taken iff result is Err [{is_err}] of variant IOError [{is_io}] with kind() == {kinds} (must be exactly Interrupted); other conditions on the retry: {len(extra)}"
             ctx.ob("R14.1.retry_loop", inst, ok, c.where(), detail)
         ctx.floor("R14.1.unknown_stream_calls", n, 4)
-        # ------------------------------------------------------------ R14.2 exact loops
-        for tr, nm, meth, kind in (("io::ReadVolatile", "read_exact_volatile", "read_volatile", "UnexpectedEof"), ("io::WriteVolatile", "write_all_volatile", "write_volatile", "WriteZero")):
-            b = prog.one(in_trait=tr, name=nm)
-            cs = [c for c in b.calls() if canon(c.callee or "").endswith("::" + meth) and not c.t.get("resolved")]
-            ok = len(cs) == 1
-            d = f"{len(cs)} stream calls"
-            if ok:
-                S = deep_strip(b.call_term(cs[0].t, cs[0].pos, 0))
-                bufarg = unref(cs[0].args()[1])
-                cur_ok = bufarg[0] == 'var'
-                adv_ok = init_ok = False
-                if cur_ok:
-                    for pos, t in b.var_defs(bufarg[1]):
-                        t = deep_strip(t)
-                        p = producer(t)
-                        if match(C("VolatileSlice::offset", P(2), K(0)), p, {}):
-                            init_ok = True
-                        elif match(C("VolatileSlice::offset", V("pb"), V("n")), p, {"pb": bufarg}):
-                            e = {"pb": bufarg}
-                            match(C("VolatileSlice::offset", V("pb"), V("n")), p, e)
-                            nn = e["n"]
-                            adv_ok = nn[0] == 'ok' and producer(nn) == S
-                # Ok(0) => the pinned error kind ; Err(e) => returned unchanged
-                zero_ok = pass_ok = False
-                for pos, rt in b.return_terms():
-                    facts = b.facts_at(pos)
-                    rd = deep_strip(rt)
-                    kinds = [s2[2] for s2 in subterms(rd) if s2[0] == 'agg' and str(s2[1]).endswith("io::ErrorKind")]
-                    if kinds:
-                        z = any(r[0] == 'cmp' and r[1] == 'Eq' and r[3] == ('const', 0) and unref(r[2])[0] == 'ok' and producer(unref(r[2])) == S for r in facts)
-                        zero_ok = kinds == [kind] and z
-                    elif rd[0] == 'agg' and rd[2] == 'Err' and unref(rd[3][0]) == ('vfield', S, 'Err', 0):
-                        pass_ok = True
-                # loop guard: while !partial_buf.is_empty()
-                guard_ok = any(r[0] == 'bool' and r[2] is False and match(C("VolatileSlice::is_empty", V("pb")), r[1], {"pb": bufarg}) for r in b.facts_at(cs[0].pos))
-                ok = cur_ok and init_ok and adv_ok and zero_ok and pass_ok and guard_ok
-                d = (f"retried call uses the current partial_buf [{cur_ok}] (init buf.offset(0) [{init_ok}], advanced only by offset(n) with n = the call's Ok payload [{adv_ok}]); "
-                     f"Ok(0) => Err({kind}) [{zero_ok}]; other errors returned unchanged [{pass_ok}]; loop runs while !partial_buf.is_empty() [{guard_ok}]")
-            ctx.ob("R14.2.exact_loop", b.key, ok, b.where(), d)
+        rule_exact_loops(ctx, prog, eff)
         # ------------------------------------------------------------ R14.3 slice forms
         SL = "volatile_memory::VolatileSlice"
         for nm, meth in (("read_volatile_from", "ReadVolatile::read_volatile"), ("write_volatile_to", "WriteVolatile::write_volatile")):
